@@ -66,8 +66,13 @@ def get_mask_with_key_joins(data, key_joins, subset_state, view=None):
             key_right_all = []
 
             for cid1_i, cid2_i in zip(cid1, cid2):
-                key_left_all.append(data.get_data(cid1_i, view=view).ravel())
-                key_right_all.append(other.get_data(cid2_i, view=mask_right).ravel())
+                key_left = data.get_data(cid1_i, view=view).ravel()
+                key_right = other.get_data(cid2_i, view=mask_right).ravel()
+                # The keys are compared byte by byte below, so the values on
+                # both sides need to be stored with the same data type
+                dtype = np.result_type(key_left, key_right)
+                key_left_all.append(key_left.astype(dtype))
+                key_right_all.append(key_right.astype(dtype))
 
             key_left_all = concatenate_arrays(*key_left_all)
             key_right_all = concatenate_arrays(*key_right_all)
